@@ -391,6 +391,19 @@ def delete_consumers(consumers):
                         "consumer with UUID %s: %s", consumer.uuid, err)
 
 
+def consumers_without_allocations(consumers, allocations):
+    """Return those of the supplied (newly created) consumers for which the
+    list of Allocation objects written holds no amount.
+
+    :param consumers: iterable of Consumer objects created by this request
+    :param allocations: list of Allocation objects that were written
+    """
+    with_allocations = set(
+        alloc.consumer.uuid for alloc in allocations if alloc.used)
+    return [consumer for consumer in consumers
+            if consumer.uuid not in with_allocations]
+
+
 def _set_allocations_for_consumer(req, schema):
     context = req.environ['placement.context']
     context.can(policies.ALLOC_UPDATE)
@@ -503,6 +516,12 @@ def _set_allocations_for_consumer(req, schema):
             'Inventory and/or allocations changed while attempting to '
             'allocate: %(error)s' % {'error': exc},
             comment=errors.CONCURRENT_UPDATE)
+
+    if created_new_consumer and not allocation_objects:
+        # An empty allocations object for a consumer that did not exist: the
+        # write had nothing to do, so do not leave the consumer record that
+        # was created for it behind.
+        delete_consumers([consumer])
 
     req.response.status = 204
     req.response.content_type = None
@@ -617,6 +636,9 @@ def set_allocations(req):
             'Inventory and/or allocations changed while attempting to '
             'allocate: %(error)s' % {'error': exc},
             comment=errors.CONCURRENT_UPDATE)
+
+    delete_consumers(consumers_without_allocations(
+        new_consumers_created, allocations))
 
     req.response.status = 204
     req.response.content_type = None
